@@ -124,6 +124,10 @@ func (p *P) input(g gen.G) string {
 	case 7:
 		return g.Stmt(3)
 	case 8:
+		if g.S.Intn(14, "c11.bigmulti") == 13 {
+			// larger than any window a scanner may pre-process the text in
+			return gen.BigMultiline([]int{70, 140}[g.S.Intn(2, "c11.bigkib")], g.S.Intn(3, "c11.bigbad"))
+		}
 		if g.S.Intn(2, "c11.longtoken") == 1 {
 			// one long token: work (and any polling) inside a comment, string or quoted body
 			return gen.LongToken(g.S.Intn(5, "ltkind"), []int{600, 4100, 4100, 9000, 20000}[g.S.Intn(5, "ltsize")])
@@ -392,6 +396,22 @@ func (p *P) Run(src *tape.Source, trace bool) *core.Result {
 		r.Probes["P>400-sampled"]++
 		r.Probes[fmt.Sprintf("poll-sites-in-a-sampled-run=%d", len(first))]++
 	}
+	if len(sql) > 32*1024 && len(ks) > 30 {
+		// very large inputs: every cancelled call costs milliseconds - keep the
+		// first and last points and an even sample of the rest (the per-site
+		// points are part of ks already and are favoured by keeping both ends)
+		thin := append([]int{}, ks[:8]...)
+		step := (len(ks) - 16) / 14
+		if step < 1 {
+			step = 1
+		}
+		for i := 8; i < len(ks)-8; i += step {
+			thin = append(thin, ks[i])
+		}
+		thin = append(thin, ks[len(ks)-8:]...)
+		ks = dedupInts(thin)
+		r.Probes["very-large-input-thinned-cancellation-points"]++
+	}
 	nFull := 0
 	fullAt := map[int]bool{}
 	if len(ks) > 0 {
@@ -405,6 +425,9 @@ func (p *P) Run(src *tape.Source, trace bool) *core.Result {
 	observedInside := false
 	for _, k := range ks {
 		for ei, E := range []error{context.Canceled, context.DeadlineExceeded, context.Canceled} {
+			if ei > 0 && len(sql) > 32*1024 && k != ks[0] && k != ks[len(ks)-1] && k%7 != 0 {
+				continue // very large input: the other two flavours at a sample of the points only
+			}
 			// fresh instances per cancellation point: whatever the residue probe
 			// finds is then due to the cancelled call alone, not to earlier probes
 			simhook.PurgeAll() // pools then hold only what this cancelled call releases
@@ -462,6 +485,34 @@ func (p *P) Run(src *tape.Source, trace bool) *core.Result {
 				tokenizer.PutTokenizer(tkz)
 				parser.PutParser(par)
 			}
+		}
+	}
+
+	// --- the error handed to a caller is the caller's: a later call on the same
+	// instance (cancelled for another reason) must not change what it says
+	if len(ks) >= 2 && entry != eGosqlx {
+		simhook.PurgeAll()
+		newInst()
+		k1 := ks[1+src.Intn(len(ks)-1, "c11.stab1")]
+		k2 := ks[1+src.Intn(len(ks)-1, "c11.stab2")]
+		e1, e2 := context.Canceled, context.DeadlineExceeded
+		if src.Intn(2, "c11.stabflip") == 1 {
+			e1, e2 = e2, e1
+		}
+		o1 := call(simctx.New(k1, e1))
+		if o1.err != nil {
+			text1, is1 := o1.err.Error(), errors.Is(o1.err, e1)
+			o2 := call(simctx.New(k2, e2))
+			r.Evals++
+			if o1.err.Error() != text1 || errors.Is(o1.err, e1) != is1 {
+				r.Fail("no-residue", entryNames[entry]+" earlier-error-changed",
+					fmt.Sprintf("the error returned by a call cancelled (%v) at poll %d of %q read %q; after a second call on the same instance, cancelled (%v) at poll %d, the SAME error value reads %q and errors.Is(err, %v) = %v", e1, k1, clipS(sql, 80), text1, e2, k2, o1.err.Error(), e1, errors.Is(o1.err, e1)))
+			}
+			_ = o2
+		}
+		if pooled {
+			tokenizer.PutTokenizer(tkz)
+			parser.PutParser(par)
 		}
 	}
 
